@@ -96,7 +96,19 @@ def exec_weight(case):
     qtype = O.QTALL[qn]
     dtype = gen.DT[case["dtype"]]
     x = tensor_for(shape, dtype, case.get("seed", 0))
-    r = cut(quantize_weight, x, qtype, axis, gs, OPTS[opt]())
+    # the qtype object as the caller holds it: the module-level singleton, or an equal copy (unpickled in a worker process,
+    # deep-copied with a configuration object)
+    qarg = qtype
+    how = (len(shape) + (axis or 0) + (gs or 0) + sum(shape)) % 4
+    if how == 1:
+        import copy
+
+        qarg = copy.deepcopy(qtype)
+    elif how == 2:
+        import pickle
+
+        qarg = pickle.loads(pickle.dumps(qtype))
+    r = cut(quantize_weight, x, qarg, axis, gs, OPTS[opt]())
     kind = classify(r)
     why = must_reject_weight(shape, qtype, axis, gs, opt)
     tag = "quantize_weight"
@@ -370,6 +382,10 @@ def optimizer_grid():
 def exec_group(case):
     out = Outcome()
     qtype = O.QTALL[case["qtype"]]
+    if case.get("inf", case.get("cin", 0)) % 3 == 1:
+        import copy
+
+        qtype = copy.deepcopy(qtype)  # an equal copy of the qtype object (see exec_weight)
     if case["kind"] == "linear":
         inf = case["inf"]
         m = cut(lambda: QLinear(inf, 3, bias=False, device="meta", weights=qtype))
